@@ -93,6 +93,11 @@ impl Step {
     }
 }
 
+/// ids 5 and 6 are groups (members of nothing), the others persons (dynamic members of idm_all_persons)
+fn is_group(id: u8) -> bool {
+    id >= 5
+}
+
 fn uuid_of(id: u8) -> Uuid {
     nat_uuid(0x0900_0000_1000 + id as u64)
 }
@@ -202,9 +207,13 @@ fn exec_op(c: &mut Cluster, server: usize, op: &Op) -> String {
         Op::Create(id) => {
             let mut e: Entry<EntryInit, EntryNew> = Entry::new();
             e.add_ava(Attribute::Class, EntryClass::Object.to_value());
-            e.add_ava(Attribute::Class, EntryClass::Account.to_value());
-            e.add_ava(Attribute::Class, EntryClass::Person.to_value());
-            e.add_ava(Attribute::DisplayName, Value::new_utf8s("C09 Person"));
+            if is_group(*id) {
+                e.add_ava(Attribute::Class, EntryClass::Group.to_value());
+            } else {
+                e.add_ava(Attribute::Class, EntryClass::Account.to_value());
+                e.add_ava(Attribute::Class, EntryClass::Person.to_value());
+                e.add_ava(Attribute::DisplayName, Value::new_utf8s("C09 Person"));
+            }
             e.add_ava(Attribute::Uuid, Value::Uuid(uuid_of(*id)));
             e.add_ava(Attribute::Name, Value::new_iname(&format!("c09p{id}")));
             txn.internal_create(vec![e])
@@ -214,7 +223,7 @@ fn exec_op(c: &mut Cluster, server: usize, op: &Op) -> String {
         Op::Posix(id) => txn.internal_modify(
             &f(*id),
             &ModifyList::new_list(vec![
-                Modify::Present(Attribute::Class, EntryClass::PosixAccount.to_value()),
+                Modify::Present(Attribute::Class, if is_group(*id) { EntryClass::PosixGroup.to_value() } else { EntryClass::PosixAccount.to_value() }),
                 Modify::Purged(Attribute::GidNumber),
                 Modify::Present(Attribute::GidNumber, Value::new_uint32(70000 + *id as u32)),
             ]),
@@ -738,6 +747,8 @@ fn directed() -> Vec<(&'static str, usize, Vec<&'static str>)> {
         ("two-tombstones", 2, vec!["on 0 create 1", "repl 0 1", "on 0 delete 1", "on 1 delete 1", "tick 169", "purger 0", "tick 1", "purger 1", "repl 0 1", "repl 1 0"]),
         // a class write on a replica that does not know of the delete
         ("class-write-vs-delete", 2, vec!["on 0 create 1", "repl 0 1", "on 0 delete 1", "on 1 posix 1", "repl 1 0", "repl 0 1"]),
+        // the same on a group that is a member of nothing (no recycled_directmemberof left behind)
+        ("class-write-vs-delete-group", 2, vec!["on 0 create 5", "repl 0 1", "on 0 delete 5", "on 1 posix 5", "repl 1 0", "repl 0 1"]),
     ]
 }
 
